@@ -84,19 +84,31 @@ where
     F: FnOnce() -> T + UnwindSafe,
 {
     if panic_catcher_start_catching() {
+        // When this frame is entered from a destructor that runs while an
+        // enclosing frame's panic is unwinding, the report recorded for that
+        // panic must survive the panics caught in here.
+        let in_flight = if std::thread::panicking() {
+            panic_catcher_get_backtrace()
+        } else {
+            None
+        };
         #[cfg(feature = "verif")]
         crate::verif::point(crate::verif::Site::CatchAfterStart);
         let result = std::panic::catch_unwind(f);
         #[cfg(feature = "verif")]
         crate::verif::point(crate::verif::Site::CatchAfterUnwind);
         panic_catcher_stop_catching();
-        match result {
+        let result = match result {
             Ok(res) => Ok(res),
             Err(_) => Err(panic_catcher_get_backtrace().unwrap_or_else(|| {
                 "thread '<unknown>' panicked at '<unknown>' in file '<unknown>' at line 0"
                     .to_string()
             })),
+        };
+        if let Some(in_flight) = in_flight {
+            PANIC_CATCHER_BACKTRACE.with(|bt| *bt.borrow_mut() = in_flight);
         }
+        result
     } else {
         Ok(f())
     }
